@@ -129,7 +129,7 @@ def main():
         except OSError:
             return []
 
-    measure = clause.startswith("F.equations_flushed_before_split")
+    measure = clause.startswith(("F.equations_flushed_before_split", "F.wires_flushed_before_split", "F.io_values_flushed_before_split"))
 
     class NWorld:
         modules = sys.modules
